@@ -92,6 +92,7 @@ class NaniteFitModel:
             "parameter_units",
             "valid_axes_x",
             "valid_axes_y",
+            "model_func",
              ]:
             if not hasattr(self.module, attr):
                 missing.append(attr)
@@ -150,6 +151,14 @@ class NaniteFitModel:
         p_def = list(self.module.get_parameter_defaults().keys())
         p_arg = list(inspect.signature(
             self.module.model_func).parameters.keys())
+        if len(p_def) < len(self.module.parameter_keys):
+            raise ModelImplementationError(
+                "'get_parameter_defaults' yields fewer parameters than there "
+                + f"are 'parameter_keys' for model '{model_key}'!")
+        if len(p_arg) < len(self.module.parameter_keys) + 1:
+            raise ModelImplementationError(
+                "The model function accepts fewer arguments than there are "
+                + f"'parameter_keys' (plus abscissa) for model '{model_key}'!")
         for ii, key in enumerate(self.module.parameter_keys):
             if key != p_def[ii]:
                 raise ModelImplementationError(
